@@ -14,11 +14,11 @@ timeout 3000 make -j16
 mkdir -p "$ROOT/.cache/extract"
 cd "$ROOT/.cache/extract"
 # re-extract only when the models changed
-STAMP=$(cat "$ROOT"/coq/*.vo "$ROOT/coq/extract/Extract.v" "$ROOT/ocaml/driver.ml" 2>/dev/null | md5sum | cut -d' ' -f1)
+STAMP=$(cat "$ROOT"/coq/*.vo "$ROOT/coq/extract/Extract.v" "$ROOT"/ocaml/*.ml 2>/dev/null | md5sum | cut -d' ' -f1)
 if [ ! -x driver ] || [ "$(cat stamp 2>/dev/null)" != "$STAMP" ]; then
   timeout 600 coqc -Q "$ROOT/coq" GGRS "$ROOT/coq/extract/Extract.v" > extract.log 2>&1
-  cp "$ROOT/ocaml/driver.ml" driver.ml
-  timeout 600 ocamlfind ocamlopt -O2 -w -a model.mli model.ml driver.ml -o driver 2> ocaml.log || \
-    timeout 600 ocamlfind ocamlopt -w -a model.mli model.ml driver.ml -o driver 2> ocaml.log
+  rm -f lvl_*.ml conv.ml driver.ml *.cmx *.cmi *.o
+  cp "$ROOT"/ocaml/*.ml .
+  timeout 900 ocamlfind ocamlopt -w -a model.mli model.ml conv.ml $(ls lvl_*.ml) driver.ml -o driver 2> ocaml.log || { cat ocaml.log; exit 1; }
   echo "$STAMP" > stamp
 fi
